@@ -245,6 +245,23 @@ MulW(a, b, w) ==
         p == IF la = 0 \/ lb = 0 THEN <<>> ELSE MulFast(SubSeq(a, 1, la), SubSeq(b, 1, lb))
     IN [v |-> Resize(p, w), ovf |-> \E i \in DOMAIN p : i > w /\ p[i] # 0]
 
+\* TLC keeps [i \in S |-> e] as an unevaluated function; chains of such values (Shl of Shl of ...) are
+\* re-evaluated exponentially often.  Tup forces a sequence-valued function into an explicit tuple.
+Tup(f) == SubSeq(f, 1, Len(f))
+
+\* Bytes!DivMod (restoring division, most significant bit first) with every intermediate value forced:
+\* the same function (MC_StdModels checks DivModT = DivMod on the one- and two-byte types)
+RECURSIVE DivLoop(_, _, _, _, _)
+DivLoop(a, b, k, q, r) ==
+    IF k < 0 THEN [q |-> q, r |-> r]
+    ELSE LET r2 == Tup([Shl(r, 1) EXCEPT ![1] = @ + Bit(a, k)]) IN
+         IF Le(b, r2) THEN DivLoop(a, b, k - 1, Tup(SetBit(q, k)), Tup(Sub(r2, b).v))
+         ELSE DivLoop(a, b, k - 1, q, r2)
+DivModT(a, b) ==
+    LET w == Len(a)
+        res == DivLoop(Tup(a), Tup(Resize(b, w + 1)), 8 * w - 1, Tup(Zero(w)), Tup(Zero(w + 1)))
+    IN [q |-> res.q, r |-> Tup(Resize(res.r, w))]
+
 \* a ^ e for a natural e, by squaring; stops at the first overflow of w bytes
 RECURSIVE PowLoop(_, _, _, _)
 PowLoop(base, e, acc, w) ==            \* invariant: result = acc * base^e
@@ -314,8 +331,8 @@ OptNone        == XBytes(BE8(0))
 
 NumExpect(c) ==
     LET w == NW(c.ty)
-        a == FromBE(c.a)
-        b == FromBE(c.b)
+        a == Tup(FromBE(c.a))
+        b == Tup(FromBE(c.b))
         two == FromNat(2, w)
     IN
     CASE c.op \in {"add", "sub", "mul"} ->
@@ -324,7 +341,7 @@ NumExpect(c) ==
             IF r.ovf /\ c.mode # "W" THEN Reverts(<<>>) ELSE Returns(<<XVal(r.v)>>)
       [] c.op \in {"div", "mod"} ->
             IF IsZero(b) THEN (IF c.mode = "U" THEN Returns(<<XAny(w)>>) ELSE Reverts(<<>>))
-            ELSE Returns(<<XVal(IF c.op = "div" THEN DivMod(a, b).q ELSE DivMod(a, b).r)>>)
+            ELSE Returns(<<XVal(IF c.op = "div" THEN DivModT(a, b).q ELSE DivModT(a, b).r)>>)
       [] c.op \in {"wrapping_add", "wrapping_sub", "wrapping_mul"} ->
             \* modular result; afterwards the flags are as before: the same plain operation then behaves as in mode D
             LET plain == CASE c.op = "wrapping_add" -> "add" [] c.op = "wrapping_sub" -> "sub" [] c.op = "wrapping_mul" -> "mul"
